@@ -5,6 +5,7 @@ import (
 	"encoding/base64"
 	"encoding/json"
 	"fmt"
+	"path/filepath"
 	"regexp"
 	"sort"
 	"strings"
@@ -385,7 +386,11 @@ func cfgRecord(a *absCtx, c *Cfg) (map[string]any, string) {
 	upd := "unset"
 	if c != nil {
 		if c.Dir != nil {
-			rec["dir"] = a.path(*c.Dir)
+			d := *c.Dir
+			if filepath.IsAbs(d) {
+				d = filepath.Clean(d) // the location is the cleaned path (filepath.Join)
+			}
+			rec["dir"] = a.path(d)
 		}
 		if c.Filename != nil {
 			rec["filename"] = *c.Filename
